@@ -1,5 +1,6 @@
 import MitmVerif.Model.C13
 import MitmVerif.Model.C13_Idna
+import MitmVerif.Model.C13_Nameprep
 import Driver.Proto
 open MitmVerif Driver MitmVerif.C13
 
@@ -91,6 +92,19 @@ def step (line : String) : String :=
     | some raw, some tab =>
       withTable tab (fun N => match idnaText (Idna.idnaOf N) raw with | some b => showBytes b | none => "!")
     | _, _ => "bad-op"
+  | ["nprep", c] =>
+    -- `encodings.idna.nameprep` computed by the model from the regenerated Unicode tables
+    match parseCps c with
+    | some cps =>
+      match Np.nameprep cps with
+      | some r => if r.isEmpty then "-" else ",".intercalate (r.map toString)
+      | none => "!"
+    | none => "bad-op"
+  | ["vhostF", h] =>
+    -- `is_valid_host` with NO library answer supplied
+    match hexOr h with
+    | some nm => if Np.validHostFull nm then "1" else "0"
+    | none => "bad-op"
   | ["vhostN", h, t] =>
     match hexOr h, parseTable t with
     | some nm, some tab => withTable tab (fun N => if Idna.validHostN N nm then "1" else "0")
